@@ -123,13 +123,13 @@ CHECKS = {
     "C15": {
         "quick": [
             {"pkg": "v2", "entries": ["VerifC15History"], "params": {"H": 2, "N": 2}},
-            {"pkg": "v2", "entries": ["VerifC15History"], "params": {"H": 1, "N": 2, "OPTN": 4}},
+            {"pkg": "v2", "entries": ["VerifC15History"], "params": {"H": 1, "N": 2, "OPTN": 4, "FAMS": 4}},
             {"pkg": "v2", "entries": ["VerifC15MapOrder"], "params": {}, "replay_repeat": 40},
         ],
         "thorough": [
             {"pkg": "v2", "entries": ["VerifC15History"], "params": {"H": 3, "N": 2, "FAMS": 1}},
             {"pkg": "v2", "entries": ["VerifC15History"], "params": {"H": 2, "N": 3}},
-            {"pkg": "v2", "entries": ["VerifC15History"], "params": {"H": 2, "N": 2, "OPTN": 4}},
+            {"pkg": "v2", "entries": ["VerifC15History"], "params": {"H": 2, "N": 2, "OPTN": 4, "FAMS": 4}},
             {"pkg": "v2", "entries": ["VerifC15MapOrder"], "params": {}, "replay_repeat": 40},
         ],
         "covers": ["c15.history.none", "c15.history.merge", "c15.history.set", "c15.history.multiset", "c15.maporder"],
@@ -280,6 +280,7 @@ CHECKS = {
             {"pkg": "v2", "entries": ["VerifC01Flat"], "params": {"N": 2, "CLONE": 1}},
             {"pkg": "v2", "entries": ["VerifC01Obj", "VerifC01Void", "VerifC01Mixed"], "params": {"N": 2}},
             {"pkg": "v2", "entries": ["VerifC01Keyed"], "params": {"N": 2, "M": 1}},
+            {"pkg": "v2", "entries": ["VerifC01Keyed"], "params": {"N": 1, "M": 1, "SCALARS": 1, "WRAPS": 1}},
             {"pkg": "v2", "entries": ["VerifC01Nest"], "params": {"N": 2, "OPTS": 0x17}},
             {"pkg": "v2", "entries": ["VerifC01Deep"], "params": {"DEPTH": 7}},
             {"pkg": "v2", "entries": ["VerifC01Deep"], "params": {"DEPTH": 3, "CHAINKINDS": 2}},
@@ -290,6 +291,7 @@ CHECKS = {
             {"pkg": "v2", "entries": ["VerifC01Obj", "VerifC01Void", "VerifC01Mixed"], "params": {"N": 2, "INNER": 2}},
             {"pkg": "v2", "entries": ["VerifC01Keyed"], "params": {"N": 2, "M": 1}},
             {"pkg": "v2", "entries": ["VerifC01Keyed"], "params": {"N": 1, "M": 2}},
+            {"pkg": "v2", "entries": ["VerifC01Keyed"], "params": {"N": 1, "M": 1, "SCALARS": 1}},
             {"pkg": "v2", "entries": ["VerifC01Nest"], "params": {"N": 2, "OPTS": 0x77, "WRAPS": 4}},
             {"pkg": "v2", "entries": ["VerifC01Deep"], "params": {"DEPTH": 9, "CHAINKINDS": 1}},
             {"pkg": "v2", "entries": ["VerifC01Deep"], "params": {"DEPTH": 5, "CHAINKINDS": 2}},
